@@ -21,7 +21,7 @@ from __future__ import annotations
 
 from ..da import analyse as da_analyse
 from ..lib import (evaluator, ext_name, is_ext_call, strip_casts, find, find_ext_calls,
-                   dep_names, method_name, fn_name, select_arms, rec_fields)
+                   dep_names, method_name, fn_name, select_arms, rec_fields, kwarg)
 from ..spec import spec_term, closure_values, abstract, Comparer
 from ..terms import T, sym, tup, const, is_const, cval, walk, show, NONE, subst
 from ..model import AnalysisError
@@ -523,8 +523,9 @@ def siblings(ctx):
                    decide=_decider(padding=False, rel=True, size1=False, lobpcg=False, eigh=False, negrank=False))
     r = ev.run(fi)
     x = r.args[0]
-    ok = is_ext_call(x, 'jax.numpy.asarray') and len(x.args[1]) == 2 and \
-        any(d.split('.')[0] == 'matrix' for d in dep_names(x.args[1][1])) and 'dtype' in show(x.args[1][1])
+    dt = kwarg(x, 'dtype')
+    ok = is_ext_call(x, 'jax.numpy.asarray') and dt is not None and \
+        any(d.split('.')[0] == 'matrix' for d in dep_names(dt)) and 'dtype' in show(dt)
     ctx.ob('C01.R4', fi.short, 'cast-back', ok,
            'result must be cast back to the dtype of the input matrix', ctx.loc(fi),
            sample='asarray(X, matrix.dtype)')
